@@ -295,6 +295,13 @@ func evalBool(info *types.Info, e ast.Expr, env map[string]int64) (bool, bool) {
 		if v, ok := env[x.Name]; ok {
 			return v != 0, true
 		}
+		if v, ok := constInt(info, x); ok {
+			return v != 0, true
+		}
+	case *ast.SelectorExpr:
+		if v, ok := env[exprStr(x)]; ok {
+			return v != 0, true
+		}
 	}
 	return false, false
 }
@@ -311,6 +318,20 @@ func evalInt(info *types.Info, e ast.Expr, env map[string]int64) (int64, bool) {
 	case *ast.SelectorExpr:
 		v, ok := env[exprStr(x)]
 		return v, ok
+	case *ast.BinaryExpr:
+		a, ok1 := evalInt(info, x.X, env)
+		b, ok2 := evalInt(info, x.Y, env)
+		if !ok1 || !ok2 {
+			return 0, false
+		}
+		switch x.Op {
+		case token.ADD:
+			return a + b, true
+		case token.SUB:
+			return a - b, true
+		case token.MUL:
+			return a * b, true
+		}
 	}
 	return 0, false
 }
